@@ -11,7 +11,8 @@ CHECKS["C18"] = dict(
          "(no deviation bound; deadlock = invalid end state, budget, exactly-once, nobody left running) for 8 (quick) / 13 (thorough) configurations of workers x budget x pool up to 4 workers, and is bound to the code "
          "in both directions: every complete trace of the model is replayed on the real code in follow mode and must produce exactly the model's operations (all 391 + 190 traces of the 2-worker budget-1 "
          "configurations; there the trace sets of code and model are equal), and every execution of the code explored for the binding scenarios (all schedules, or all within 2-3 deviations) "
-         "is accepted by the model's trace acceptor",
+         "is accepted by the model's trace acceptor; a disagreement between model and code is reported as MODEL-NOT-BOUND (unit incomplete), not as a violation, "
+         "and a Spin counterexample is a violation only after the real code followed it and failed",
     assumptions=COMMON_ASSUME + ["threads are serialised (sequential consistency); code between two synchronisation operations runs atomically; plain-memory races are delegated to the free-running ThreadSanitizer pass of the same bodies",
                                  "condition variables wake in FIFO order in the quick tier; the thorough tier also enumerates which waiter notify_one wakes; no spurious wake-ups"],
     jobs=[dict(name="sched", harness="sched_surrogate", variant="asan", quick=["--tier", "quick", "--bound", "2"], thorough=["--tier", "thorough", "--bound", "3"], deadline_quick=240, deadline_thorough=1500),
